@@ -16,6 +16,9 @@
 #include <primesieve.h>
 #include <primesieve/IteratorHelper.hpp>
 #include <primesieve/PrimeGenerator.hpp>
+#include <primesieve/Erat.hpp>
+#include <primesieve/primesieve_error.hpp>
+#include <primesieve/Vector.hpp>
 
 #include <cerrno>
 #include <cstdint>
@@ -32,6 +35,25 @@
 #include <vector>
 
 using primesieve::IteratorData;
+
+// Friend of the library classes when built with -DPRIMESIEVE_VERIF (hook H0).
+struct primesieve_verif_probe
+{
+  // ---- PrimeGenerator / Erat: sieve one segment at a time --------------------------------
+  static bool pgSieveNext(primesieve::PrimeGenerator& pg, primesieve::Vector<uint64_t>& primes, std::size_t* size)
+  { return pg.sieveNextPrimes(primes, size); }
+  static uint64_t low(const primesieve::PrimeGenerator& pg) { return pg.low_; }
+  static uint64_t segLow(const primesieve::PrimeGenerator& pg) { return pg.segmentLow_; }
+  static uint64_t segHigh(const primesieve::PrimeGenerator& pg) { return pg.segmentHigh_; }
+  static const primesieve::Vector<uint8_t>& sieve(const primesieve::PrimeGenerator& pg) { return pg.sieve_; }
+  static uint64_t maxSmall(const primesieve::PrimeGenerator& pg) { return pg.maxEratSmall_; }
+  static uint64_t maxMedium(const primesieve::PrimeGenerator& pg) { return pg.maxEratMedium_; }
+  static void setSieveIdxDone(primesieve::PrimeGenerator& pg) { pg.sieveIdx_ = pg.sieve_.size(); }
+  static uint64_t l1CacheSize() { return primesieve::Erat::getL1CacheSize(); }
+};
+
+bool isPrimeOracle(uint64_t n);
+void oracleRange(uint64_t lo, uint64_t hi, std::vector<char>& out);
 
 namespace {
 
@@ -170,6 +192,105 @@ int streamIter(std::istream& in)
   return 0;
 }
 
+// ---------------------------------------------------------------------------
+// stream "segment": the Erat layer under PrimeGenerator, one segment at a time
+//   seg <start> <stop> <sieveKiB>
+// prints per sieved segment the geometry and a digest of the 1-bits, and whether the
+// decoded numbers are exactly the primes of the segment's part of [start, stop]
+// (checked against an independent trial-division / Miller-Rabin oracle in the harness).
+// ---------------------------------------------------------------------------
+
+const int bitOff[8] = { 7, 11, 13, 17, 19, 23, 29, 31 };
+
+int streamSegment(std::istream& in)
+{
+  std::string line;
+  while (std::getline(in, line))
+  {
+    auto t = split(line);
+    if (t.empty() || t[0][0] == '#')
+      continue;
+    if (t[0] != "seg" || t.size() < 4) { std::cerr << "bad op: " << line << "\n"; return 2; }
+    uint64_t start = u64(t[1]), stop = u64(t[2]);
+    int kib = atoi(t[3].c_str());
+    primesieve::set_sieve_size(kib);
+    std::cout << "seg " << start << " " << stop << " " << kib << " l1=" << primesieve_verif_probe::l1CacheSize() << " => ";
+    try
+    {
+      primesieve::PrimeGenerator pg(start, stop);
+      primesieve::Vector<uint64_t> primes;
+      std::size_t size = 0;
+      long nseg = 0;
+      uint64_t total = 0, sum = 0;
+      std::string bad;
+      std::ostringstream geo;
+      uint64_t prevHigh = 0;
+      while (true)
+      {
+        try
+        {
+          if (!primesieve_verif_probe::pgSieveNext(pg, primes, &size))
+            break;
+        }
+        catch (const primesieve::primesieve_error&)
+        {
+          // stop = 2^64-1: after the last segment sieveNextPrimes() reports
+          // "cannot generate primes > 2^64" instead of returning false
+          if (stop == UINT64_MAX)
+            break;
+          throw;
+        }
+        // the segment just sieved starts at low_; its bytes are sieve_
+        uint64_t low = primesieve_verif_probe::low(pg);
+        auto& sv = primesieve_verif_probe::sieve(pg);
+        uint64_t bytes = sv.size();
+        if (nseg < 4)
+          geo << " [low=" << low << " bytes=" << bytes << " nlow=" << primesieve_verif_probe::segLow(pg)
+              << " nhigh=" << primesieve_verif_probe::segHigh(pg) << "]";
+        uint64_t lo = std::max<uint64_t>(std::max<uint64_t>(start, 721), low + 7);
+        uint64_t hi = low + bytes * 30 + 1;   // value of the last bit of the last byte
+        if (hi < low || hi > stop) hi = stop;
+        // every number of the wheel in [low+7, low+30*bytes+1]: bit must equal "prime and in [lo,hi]"
+        std::vector<char> isP;
+        uint64_t olo = low + 7, ohi = low + bytes * 30 + 1;
+        if (ohi < olo) ohi = UINT64_MAX;
+        oracleRange(olo, ohi, isP);
+        for (uint64_t j = 0; j < bytes && bad.empty(); j++)
+          for (int b = 0; b < 8; b++)
+          {
+            uint64_t n = low + 30 * j + bitOff[b];
+            if (n < low) continue; // wrapped
+            bool bit = (sv[j] >> b) & 1;
+            bool want = n >= lo && n <= hi && isP[n - olo];
+            if (bit) { total++; sum += n; }
+            if (bit != want)
+            {
+              bad = "n=" + std::to_string(n) + (bit ? ":composite-or-out-of-range-kept" : ":prime-missing")
+                    + " seg=" + std::to_string(nseg) + " low=" + std::to_string(low) + " byte=" + std::to_string(j) + " bit=" + std::to_string(b);
+              break;
+            }
+          }
+        // padding bytes up to a multiple of 8 must be zero (read by 64-bit loads)
+        for (uint64_t j = bytes; j % 8 != 0 && j < sv.capacity(); j++)
+          if (sv.data()[j] != 0 && bad.empty())
+            bad = "nonzero-padding seg=" + std::to_string(nseg);
+        primesieve_verif_probe::setSieveIdxDone(pg);
+        nseg++;
+        prevHigh = hi;
+      }
+      std::cout << "segs=" << nseg << " total=" << total << " sum=" << sum
+                << " small=" << primesieve_verif_probe::maxSmall(pg) << " medium=" << primesieve_verif_probe::maxMedium(pg)
+                << " content=" << (bad.empty() ? "ok" : bad) << geo.str() << "\n";
+    }
+    catch (const std::exception& e)
+    {
+      std::cout << "ERR:" << errClass(e) << "\n";
+    }
+  }
+  primesieve::set_sieve_size(0 + 256);
+  return 0;
+}
+
 } // namespace
 
 int main(int argc, char** argv)
@@ -189,6 +310,8 @@ int main(int argc, char** argv)
   std::ios::sync_with_stdio(false);
   if (stream == "iter")
     return streamIter(in);
+  if (stream == "segment")
+    return streamSegment(in);
   std::cerr << "unknown stream " << stream << "\n";
   return 2;
 }
